@@ -49,6 +49,8 @@ def bounds(tier, alpha):
     """(k_add, k_after): all add-sequences up to k_add; after a removal up to k_after further adds"""
     n = len(alpha)
     if tier == 'quick':
+        if n >= 20:
+            return 1, 0, 2          # very large alphabets: removal/replacement variants after one add, all add-sequences up to 2
         return (3 if n <= 5 else 2), (1 if n <= 8 else 0), (3 if n <= 8 else 0)
     return (4 if n <= 5 else 3 if n <= 10 else 2), (1 if n <= 14 else 0), (4 if n <= 6 else 3 if n <= 12 else 0)
 
